@@ -50,16 +50,16 @@ func init() {
 			}
 			for s := 0; s < tierPick(tier, 4, 16); s++ {
 				bs = append(bs, core.Batch{Name: fmt.Sprintf("random-%d", s), TimeoutS: 600,
-					Params: core.Params(c04Params{Kind: "random", Shard: s, N: tierPick(tier, 1500, 40000)})})
+					Params: core.Params(c04Params{Kind: "random", Shard: s, N: tierPick(tier, 4000, 40000)})})
 			}
 			for i, w := range []int{1, 2, 8, 32} {
 				if tier == core.Quick && i%2 == 0 {
 					continue
 				}
 				bs = append(bs, core.Batch{Name: fmt.Sprintf("concurrent-w%d", w), TimeoutS: 600,
-					Params: core.Params(c04Params{Kind: "concurrent", Workers: w, N: tierPick(tier, 3000, 40000)})})
+					Params: core.Params(c04Params{Kind: "concurrent", Workers: w, N: tierPick(tier, 8000, 40000)})})
 				bs = append(bs, core.Batch{Name: fmt.Sprintf("concurrent-race-w%d", w), TimeoutS: 900, Race: true,
-					Params: core.Params(c04Params{Kind: "concurrent", Workers: w, N: tierPick(tier, 1500, 15000)})})
+					Params: core.Params(c04Params{Kind: "concurrent", Workers: w, N: tierPick(tier, 3000, 15000)})})
 			}
 			return bs
 		},
